@@ -387,6 +387,7 @@ def r5_position_space(ctx):
             if kind is None:
                 raise AnalysisError("C08.R5: cannot classify the stream `%s` "
                                     "Fiber.%s counts" % (text(lp.iter), name))
+            it_txt = text(lp.iter)
             if isinstance(lp, ast.comprehension):
                 lp = enclosing_stmt(lp)
             if kind == dkind:
@@ -399,7 +400,7 @@ def r5_position_space(ctx):
                         "%s stream `%s`: with a stored explicit default / empty "
                         "sub-fiber the chunks no longer hold the stated number "
                         "of elements and boundaries land on the wrong elements"
-                        % (name, kind, text(lp.iter), dkind, text(dl[0].iter)),
+                        % (name, kind, it_txt, dkind, text(dl[0].iter)),
                         text_="%s boundary stream" % name)
     ctx.floor("C08.R5", n, 2, "position-space boundary loops")
 
